@@ -55,7 +55,7 @@ def required_counters(tier):
         "nested_unhooked_inside_hooked": 30,
         "nested_hooked_inside_unhooked": 10,
         "pyc_files_created": 200,
-        "runs_with_cache_present": 100, "runs_with_failing_hooked_import": 20, "runs_read_only_cache": 20, "in_process_reimport": 5, "in_process_edit_and_reimport": 5, "runs_with_checking_disabled": 15, "source_edits.same_mtime_other_size": 10, "in_process_rehook_with_other_checker": 5, "histories.sources_older_than_the_library": 20, "runs_python_O": 30, "histories.pycache_blocked": 5, "corrupt_cache.scenarios": 4, "concurrent_imports.scenarios": 1, "deep_import.modules": 10, "edit_during_import.scenarios": 8, "optimisation_level_observations": 500,
+        "runs_with_cache_present": 100, "runs_with_failing_hooked_import": 20, "runs_read_only_cache": 20, "in_process_reimport": 5, "in_process_edit_and_reimport": 5, "runs_with_checking_disabled": 15, "source_edits.same_mtime_other_size": 10, "in_process_rehook_with_other_checker": 5, "histories.sources_older_than_the_library": 20, "runs_python_O": 30, "histories.pycache_blocked": 5, "corrupt_cache.scenarios": 4, "concurrent_imports.scenarios": 1, "deep_import.modules": 10, "edit_during_import.scenarios": 8, "optimisation_level_observations": 500, "runs_with_foreign_cache_from_source_patch": 15,
     }
 
 
@@ -141,6 +141,13 @@ def gen_run(rng, mods):
                 other = rng.choice([c for c in ("spychk.A", "spychk.B", None) if c != first["checker"]])
                 ops.append({"op": "install", "h": 2, "names": [m], "checker": other})
             ops.append({"op": "edit_reimport" if rng.random() < 0.5 else "reimport", "module": m})
+    imports_at = [i for i, o in enumerate(ops) if o["op"] == "import"]
+    if ops and ops[0]["op"] == "install" and len(imports_at) >= 2 and rng.random() < 0.25:
+        # another tool replaces importlib's cache_from_source for a while and later restores what it had found
+        # (typeguard 2.x's own import hook, beartype.claw): hooked modules imported afterwards still get the hook's cache file
+        end = rng.choice(imports_at[1:])
+        ops.insert(end, {"op": "foreign_patch_end"})
+        ops.insert(rng.choice((0, 1)), {"op": "foreign_patch_begin"})
     if rng.random() < 0.3:
         # an optional module that fails to compile, hooked or not, somewhere among the imports
         if ops and ops[0]["op"] == "install" and rng.random() < 0.7:
@@ -241,6 +248,8 @@ def run_history(rec, rng, key):
             after = pycs(root)
             created = sorted(after - before)
             rec.count("runs")
+            if any(o["op"] == "foreign_patch_begin" for o in ops):
+                rec.count("runs_with_foreign_cache_from_source_patch")
             rec.count("pyc_files_created", len(created))
             if before:
                 rec.count("runs_with_cache_present")
